@@ -7,7 +7,7 @@ from vf.core import Obs
 PID = "C19"
 RULE = (
     "case = (n, collection of well ids in one of the representations list/tuple/1-D array/2-D array/column slice, "
-    "possibly with repeated wells, or an invalid n / empty collection); enumerated: n in 0..260 (quick: 0..80) x len 1..26 x 5 representations; "
+    "possibly with repeated wells, or an invalid n / empty collection incl. empty 2-D selections; each valid call is repeated after the caller modified the first result); enumerated: n in 0..260 (quick: 0..80) x len 1..26 x 5 representations; "
     "generated: 2-D trough grids up to 26x6 with n up to 2000. Non-trivial = valid call with n > number of wells "
     "(the list has to wrap around); distinct by canonical JSON of the case."
 )
@@ -52,6 +52,9 @@ def enumerate_cases(tier):
         yield {"rep": "list", "rows": 3, "cols": 1, "ns": [], "bad_n": [bad if not isinstance(bad, float) else {"float": bad}]}
     yield {"rep": "empty_list", "rows": 0, "cols": 0, "ns": [0, 1, 5]}
     yield {"rep": "empty_array", "rows": 0, "cols": 0, "ns": [0, 1, 5]}
+    # empty 2-D selections such as trough.wells[:, 3:] of a 3-column trough, or a column mask that selects nothing
+    for shape in ((1, 0), (3, 0), (8, 0), (0, 1), (0, 3)):
+        yield {"rep": "empty_2d", "rows": shape[0], "cols": shape[1], "ns": [0, 1, 5]}
 
 
 def strategy(tier):
@@ -73,6 +76,8 @@ def _build(case):
         return [], []
     if rep == "empty_array":
         return np.array([], dtype=str), []
+    if rep == "empty_2d":
+        return np.array(_grid(max(rows, 1), max(cols, 1)))[:rows, :cols], []
     g = _grid(rows, cols)
     if rep == "grid2d":
         flat = [g[r][c] for c in range(cols) for r in range(rows)]
@@ -130,6 +135,14 @@ def check_case(case) -> Obs:
         exp = [flat[i % len(flat)] for i in range(n)]
         if [str(x) for x in res] != exp:
             obs.bad("C19/content", f"n={n} len={len(flat)} rep={case['rep']}: got {list(map(str, res))[:12]} expected {exp[:12]}")
+        # every call stands for itself: what the caller does with an earlier result does not matter
+        if isinstance(res, list) and res:
+            res.reverse()
+            res.pop()
+            again = robotools.get_trough_wells(n, _build(case)[0])
+            if [str(x) for x in again] != exp:
+                obs.bad("C19/second-call", f"n={n} len={len(flat)} rep={case['rep']}: after the caller changed the first result, an equal call returned {list(map(str, again))[:12]} expected {exp[:12]}")
+            obs.cls("called-again")
         if n > len(flat):
             obs.nontrivial = True
             obs.cls("wraps")
